@@ -1,5 +1,5 @@
 (* Cases.v — concrete instances used when the models are *run* (correspondence), never in theorems. *)
-From Beff Require Export Model.Validate Model.Parse Model.Report Model.Hash256Enc Model.Bdd Model.SemType Model.Schema Model.Describe Model.Session Model.ShowRt Model.Subtype.
+From Beff Require Export Model.Validate Model.Parse Model.Report Model.Hash256Enc Model.Bdd Model.SemType Model.Schema Model.Describe Model.Session Model.ShowRt Model.Subtype Model.Materialise.
 
 Fixpoint str_len (s : string) : nat := match s with EmptyString => 0 | String _ s' => S (str_len s') end.
 
